@@ -76,8 +76,8 @@ def determinism(ctx, name, res):
 # ---------------------------------------------------------------- S3 pairing
 # (function, how the end_time store must be accompanied)
 PAIR_ALLOW = [
-    # (function, normalised end_time store, text that an enclosing test must contain, reason)
-    ('apply_sustain_control_changes', 'note.end_time = time', '_NOTE_ON',
+    # (function, normalised end_time store or None = any, module constant that an enclosing test must mention, reason)
+    ('apply_sustain_control_changes', None, '_NOTE_ON',
      'truncation at a re-strike: the striking note starts at `time` and ends no earlier, and total_time already covers it'),
 ]
 
@@ -99,7 +99,7 @@ def pairing(ctx):
       if not ok:
         tests = [norm_text(t) for (t, pol) in U.enclosing_tests(fi.node, st) if pol]
         for (fn, txt, needle, reason) in PAIR_ALLOW:
-          if fn == name and norm_text(st) == txt and any(needle in t for t in tests):
+          if fn == name and (txt is None or norm_text(st) == txt) and any(needle in t for t in tests):
             ok, why = True, 'allow-listed: ' + reason
             break
       ctx.ob('PAIR/end-total', fi, st, ok, why)
@@ -149,7 +149,8 @@ def _paired(fi, st, tgt, val, op, totals):
 
 def adjust_dominance(ctx):
   """adjust_notesequence_times: the three rejections precede the emission."""
-  fi = ctx.func(SL + ':adjust_notesequence_times')
+  from rules import C13
+  fi = C13.adjust_canon(ctx.func(SL + ':adjust_notesequence_times'))
   loop = None
   for n in ast.walk(fi.node):
     if isinstance(n, ast.For) and any(isinstance(c, ast.Call) and isinstance(c.func, ast.Attribute) and c.func.attr == 'add'
@@ -232,3 +233,5 @@ MUTANTS = [
            '  for ctl in sequence.control_changes:\n    cc = ctl\n    if cc.control_number != sustain_control_number:\n      continue\n    value = cc.control_value', expect='silent'),
     Mutant('transpose: total_time through max()', F, '      end_time = max(end_time, note.end_time)', '      end_time = max(note.end_time, end_time)', expect='silent'),
 ]
+
+RENAME_FUNCS = [(F, n) for n in own.RETURNS_NEW]
